@@ -246,6 +246,86 @@ def sig_case(item):
     return n, fails, sorted(outcomes, key=repr)
 
 
+# ---------------------------------------------------------------- odd sizes
+def oddkey_case(item):
+    """RSA keys whose modulus length is not a multiple of 8 bits (made with
+    the openssl command line at run time): signatures made by the library
+    verify under the library and under OpenSSL and vice versa.  The key
+    values are fresh on every run; the verdicts do not depend on them."""
+    bits, seed = item
+    from tlslite.utils.keyfactory import parsePEMKey
+    n = 0
+    fails = []
+    outcomes = set()
+    d = tempfile.mkdtemp(prefix="c10-odd-")
+    try:
+        kf, pf = os.path.join(d, "k.pem"), os.path.join(d, "k.pub")
+        subprocess.run(["openssl", "genrsa", "-out", kf, str(bits)],
+                       stdout=subprocess.PIPE, stderr=subprocess.PIPE)
+        subprocess.run(["openssl", "rsa", "-in", kf, "-pubout", "-out", pf],
+                       stdout=subprocess.PIPE, stderr=subprocess.PIPE)
+        key = parsePEMKey(open(kf).read(), private=True,
+                          implementations=["python"])
+        msg = b"odd modulus message"
+        mf, sf = os.path.join(d, "m"), os.path.join(d, "s")
+        with open(mf, "wb") as f:
+            f.write(msg)
+
+        def expect(label, got, want=True):
+            nonlocal n
+            n += 1
+            outcomes.add((label.split("@")[0], got))
+            if got != want:
+                fails.append({"kind": "odd-modulus", "bits": bits,
+                              "case": label, "got": got, "want": want})
+        for scheme, h, salt in (("PSS", "sha256", 32), ("PSS", "sha256", 0),
+                                ("PSS", "sha1", 20), ("PKCS1", "sha256",
+                                                      None)):
+            opts = [] if scheme == "PKCS1" else [
+                "-sigopt", "rsa_padding_mode:pss", "-sigopt",
+                "rsa_pss_saltlen:%d" % salt]
+            lab = "%s-%s-salt%s@%d" % (scheme, h, salt, bits)
+            try:
+                sig = bytes(key.hashAndSign(bytearray(msg), scheme, h, salt)
+                            if scheme == "PSS" else
+                            key.hashAndSign(bytearray(msg), scheme, h))
+            except BaseException as e:  # noqa
+                expect("sign-" + lab, "raised %s" % type(e).__name__)
+                sig = None
+            if sig is not None:
+                try:
+                    ok = bool(key.hashAndVerify(
+                        bytearray(sig), bytearray(msg), scheme, h, salt)
+                        if scheme == "PSS" else key.hashAndVerify(
+                            bytearray(sig), bytearray(msg), scheme, h))
+                except BaseException as e:  # noqa
+                    ok = "raised %s" % type(e).__name__
+                expect("own-verify-" + lab, ok)
+                with open(sf, "wb") as f:
+                    f.write(sig)
+                pr = subprocess.run(["openssl", "dgst", "-" + h, "-verify",
+                                     pf, "-signature", sf] + opts + [mf],
+                                    stdout=subprocess.PIPE,
+                                    stderr=subprocess.PIPE)
+                expect("openssl-verify-" + lab, b"Verified OK" in pr.stdout)
+            pr = subprocess.run(["openssl", "dgst", "-" + h, "-sign", kf,
+                                 "-out", sf] + opts + [mf],
+                                stdout=subprocess.PIPE, stderr=subprocess.PIPE)
+            if pr.returncode == 0:
+                osig = open(sf, "rb").read()
+                try:
+                    ok = bool(key.hashAndVerify(
+                        bytearray(osig), bytearray(msg), scheme, h, salt)
+                        if scheme == "PSS" else key.hashAndVerify(
+                            bytearray(osig), bytearray(msg), scheme, h))
+                except BaseException as e:  # noqa
+                    ok = "raised %s" % type(e).__name__
+                expect("verify-openssl-made-" + lab, ok)
+    finally:
+        shutil.rmtree(d, ignore_errors=True)
+    return n, fails, sorted(outcomes, key=repr)
+
+
 # ---------------------------------------------------------------- forgeries
 DI = {"sha1": bytes.fromhex("3021300906052b0e03021a05000414"),
       "sha256": bytes.fromhex("3031300d060960864801650304020105000420"),
@@ -929,6 +1009,21 @@ def run(res, tier, seed):
                            "case": f["case"].split(":")[-1].split("=")[0]},
                           f, {"forgery": f})
     res.section("forgeries", evaluations=nf)
+    obits = [1024, 1025, 1026, 1031, 1033, 2049] if tier == "quick" else \
+        list(range(1024, 1041)) + [2047, 2049, 3073]
+    no = 0
+    for (n, fails, outcomes) in pmap(oddkey_case, [(b, seed) for b in obits],
+                                     chunksize=1):
+        no += n
+        res.count(n)
+        for o in outcomes:
+            res.outcome(("odd",) + tuple(o))
+        for f in fails:
+            res.violation({"part": "odd-modulus", "bits_mod_8": f["bits"] % 8,
+                           "case": f["case"].split("@")[0]}, f,
+                          {"odd_modulus": f})
+    res.section("odd_modulus_keys", modulus_bits=obits, evaluations=no)
+    nf += no
     groups = ["ffdhe2048", "ffdhe3072", "ffdhe4096", "ffdhe6144",
               "ffdhe8192", "secp256r1", "secp384r1", "secp521r1",
               "brainpoolP256r1", "brainpoolP384r1", "brainpoolP512r1",
